@@ -100,6 +100,8 @@ class Ref:
             return self.hook[int(w[1]) - 1] == self.hook[int(w[2]) - 1]
         if o == "bigsort":
             return len(self.ls[int(w[1]) - 1]) == 0
+        if o == "foreachmv":
+            return w[1] != w[5] and self.hook[int(w[1]) - 1] == self.hook[int(w[5]) - 1]
         return True
 
     def apply(self, op):
@@ -148,6 +150,15 @@ class Ref:
             for i, e in enumerate(vis):
                 if (mask >> i) & 1:
                     l.remove(e)
+            return "%d [%s]" % ((-3 if k % 2 else 7) if 0 <= k < len(order) else 0, ",".join(map(str, vis)))
+        if o == "foreachmv":
+            order = list(l) if w[2] == "f" else list(reversed(l))
+            k = int(w[3]); mask = int(w[4]); dst = self.ls[int(w[5]) - 1]
+            vis = order[:k + 1] if 0 <= k < len(order) else order
+            for i, e in enumerate(vis):
+                if (mask >> i) & 1:
+                    l.remove(e)
+                    dst.append(e)
             return "%d [%s]" % ((-3 if k % 2 else 7) if 0 <= k < len(order) else 0, ",".join(map(str, vis)))
         if o == "find":
             order = list(l) if w[2] == "f" else list(reversed(l))
@@ -261,6 +272,21 @@ def ref_after(script):
     for op in script:
         ref.apply(op)
     return ref
+
+
+def moving_visitor_scripts():
+    """implementation-only scripts (the model has no such operation): a traversal whose visit function
+    moves the elements it removes to the end of another list (every mask, both directions, stops)"""
+    out = []
+    for n in (1, 2, 3, 4):
+        fill = ["pushb 1 %d" % (10 + i) for i in range(n)]
+        for other in ([], ["pushb 2 20"]):
+            for d in ("f", "r"):
+                for mask in range(1, 1 << n):
+                    for stop in (-1, n - 1, 0):
+                        out.append(fill + other + ["foreachmv 1 %s %d %d 2" % (d, stop, mask), "pushb 1 30", "pushb 2 31",
+                                                   "foreach 2 f -1 0", "foreach 1 r -1 0"])
+    return out
 
 
 def bigsort_scripts(rng, quick):
